@@ -454,6 +454,12 @@ func (ex *Exec) runPath(it workItem, harnessNames []string, cfg *runConfig) {
 					ex.st.paths++
 					outcome = "assertfail"
 				case "unsupported":
+					if os.Getenv("SYMGO_DEBUG") != "" && ex.st.inconclusive[x.msg] < 2 {
+						fmt.Fprintf(os.Stderr, "INCONCLUSIVE %s: %s\n  stack=%v\n", ex.harness, x.msg, ex.stackNames())
+						for _, n := range ex.notes {
+							fmt.Fprintf(os.Stderr, "  note %s = %s\n", n.k, ex.showVal(n.v))
+						}
+					}
 					ex.st.inconclusive[x.msg]++
 					ex.st.paths++
 					outcome = "inconclusive"
